@@ -24,14 +24,16 @@ CLAIMED = {
          "note": TB + "receiving side (sh quoting, perl q{}, y///, unpack, perl -d/PERL5DB evaluation order) is modelled, validated by runs of real perl/dash/bash; "
                  "known findings: empty script, raw CR LF inside a literal.",
          "technique": "Coq proof (lexer/decoder composition lemmas over the uu round-trip theorem) + differential correspondence judged by vm_compute + perl/sh differential test"},
- "C17": {"text": "Coq model of Converter.From (glob per sorted pattern, sort, compact, dot/stat/regular tests, first-matching filter, newline "
-                 "insertion, single file, several sources, list function) parameterised by path.Match verdicts; theorems for every table/listing: "
-                 "first-matching-filter, single unmatched file unchanged, sources concatenated in order, dot-names/directories/specials inert, parts "
-                 "newline-terminated. PARTIAL: the full statement from_dir = spec_dir (exactly the eligible files in name order) is stated in Coq "
-                 "and evaluated by the judge on every harness case (500 real temp trees per quick run incl. dangling links, fifos, overlapping and "
-                 "malformed patterns) but its general proof is not finished.",
+ "C17": {"text": "Coq theorems for every listing with distinct names and every filter table (path.Match verdicts are parameters; only 'a pattern without "
+                 "meta characters matches exactly itself' is assumed): c17_dir_is_spec - the directory payload IS the statement's own description "
+                 "(exactly the eligible entries: regular after following links, matched, not dot-files; in lexicographic name order; each converted by "
+                 "the first matching filter and newline-terminated) - proved through strict-sortedness and uniqueness of the compacted name list; "
+                 "c17_ineligible_inert - two directories with the same eligible entries give the same result (sub-directories, non-matching names, "
+                 "dot-files incl. dangling ones, special files are inert); first-matching filter, unmatched single file unchanged, sources concatenated "
+                 "in order. Tie: 500 real temp trees per quick run (dangling links, fifos, overlapping / malformed / no-meta patterns, list function) "
+                 "compared byte-exactly with the model and judged against spec_dir in Coq.",
          "note": TB + "path.Match/fs.Glob/Stat are environment (their verdicts are case inputs); model tied by byte-exact correspondence on real trees.",
-         "technique": "Coq proof over a hand model (partial) + differential correspondence and statement-level monitor judged by vm_compute"},
+         "technique": "Coq proof (refinement of the glob/sort/compact pipeline to the specification via order-theoretic uniqueness) + differential correspondence judged by vm_compute"},
 }
 
 BRK = ("Model = Model/Broker.v (admission and release sections of Broker.connect as atomic steps, both proxy loops at line/read granularity, "
